@@ -104,6 +104,25 @@ claim('C07',
       'regular-language dataflow, CFG checks',
       'DESIGN.md section 4 C07, Appendix A.1')
 
+claim('C02',
+      'Decides the structural conditions that make the renaming a consistent '
+      'injection for every identifier population: write-once name map, keep '
+      'collections also filter generated candidates (sibling consistency), '
+      'monotone candidate counter on every loop path, consistent radix of the '
+      'positional name expansion over a duplicate-free alphabet inside the '
+      'lexer\'s name-start class, reserved set contains keywords and the API '
+      'list, option wiring.',
+      'Decided: the necessary conditions above (each is such that breaking it '
+      'yields a colliding or unstable renaming for some program). Not '
+      'decided: the bounded exhaustive enumeration of generated ids the '
+      'property mentions (a runtime enumeration); injectivity of positional '
+      'notation is a textbook argument, not mechanised. Trusted base: '
+      'refs/pico8_api.py.',
+      'static analysis: def-use / who-stores enumeration, CFG path checks on '
+      'the allocation loop, constant evaluation, sibling-consistency of guard '
+      'sets',
+      'DESIGN.md section 4 C02')
+
 
 def main():
     props = []
